@@ -7,7 +7,10 @@ vf.use_repo()
 from ak.ppobj import PPTable, PPEnumFieldType, FieldType, ALIGN_CENTER  # noqa: E402
 
 FIELDS = ['a', 'b', 'st', 'd']
-ENUM_DEF = {1: "one", 2: ("two", "name_warn"), 30: "thirty", 400: ("four hundred", "name_good")}
+# (the look of a name is the name of a colour of the enum palette; a word that is no such name - even the id of a
+# syntax of the global configuration - means ordinary text)
+ENUM_DEF = {1: "one", 2: ("two", "name_warn"), 30: "thirty", 400: ("four hundred", "name_good"),
+            5: ("five", "WARN"), 6: ("six", "no_such_look")}
 ENUM_MAX_VAL_LEN = 3
 TITLES_POOL = {
     'a': ["a", "Alpha", "Title\nA\nx", ["A1", 22]],
@@ -93,7 +96,7 @@ def gen_records(rng, counts=(0, 1, 2, 3, 5, 8, 13), sgr_data=False):
             continue
         recs.append((gen_val(rng, sgr_data), rng.choice(b_pool) if same_b else gen_val(rng, sgr_data),
                      # (the enum field also meets strings that READ like its values: "1", "None")
-                     rng.choice([1, 2, 30, 400, 4, 55555, None, "x", 1, 2, None, "1", "2", "None"]), gen_val(rng, sgr_data)))
+                     rng.choice([1, 2, 30, 400, 4, 55555, None, "x", 1, 2, None, "1", "2", "None", 5, 6]), gen_val(rng, sgr_data)))
     return recs
 
 
